@@ -638,6 +638,8 @@ static Result roundtrip_body(const json &c) {
       r.fail(FN + "/step", fmt("frame %zu: step %ld written, %ld read (frame order / step number)", k, f.at("step").get<long>(), s.step));
       return r;
     }
+    if (fname == "dlph")  // not asserted (the statement does not list time); HISTORY stores step and dt of the first frame
+      r.cls(within(s.time, f.at("time").get<double>(), 0, 0.5e-8) ? "time-equal-to-9-digits" : "time-differs");
     // positions
     bool skip_pos = fname == "xyz" && known("XYZWriter/topology-units");
     if (skip_pos) r.cls("excluded-known:XYZWriter/topology-units(positions not compared)");
@@ -811,6 +813,8 @@ static json gen_mismatch() {
   static const std::vector<std::string> fm{"gro", "pdb", "xyz", "dump", "dlph", "dlpc"};
   json c;
   std::string fname = pickv(fm);
+  // confirmed defects are avoided by construction (run_mismatch discards what still gets here, e.g. from a replay file)
+  if (fname == "dump" && known("LAMMPSDumpReader/natoms-mismatch-accepted")) fname = pick<std::string>({"gro", "xyz", "dlph", "dlpc", "pdb"});
   c["fmt"] = fname;
   int n = ri(1, 30);
   bool more = rbool(50);
@@ -819,6 +823,11 @@ static json gen_mismatch() {
     m = n + 1;
     more = true;
   }
+  if (fname == "pdb" && m > n && known("PDBReader/natoms-mismatch-overrun")) {
+    if (n == 1) n = ri(2, 30);
+    m = n - ri(1, n - 1);
+    more = false;
+  }
   c["n_top"] = n;
   c["n_frame"] = m;
   int nf = (fname == "dlpc") ? 1 : ri(1, 3);
@@ -826,6 +835,8 @@ static json gen_mismatch() {
   c["bad"] = ri(0, nf - 1);
   // VOTCA's writer or the harness' own writer (xyz, pdb only)
   bool own = (fname == "xyz" || fname == "pdb") ? rbool(85) : false;
+  if (fname == "xyz" && (known("XYZWriter/header-blank-line") || known("XYZWriter/topology-units"))) own = true;
+  if (fname == "pdb" && known("PDB/reader-rejects-writer-output")) own = true;
   c["own_writer"] = own;
   c["hasvel"] = (fname == "gro" || fname == "dump" || fname == "dlph" || fname == "dlpc") && rbool(40);
   int nmax = std::max(n, m);
